@@ -136,11 +136,23 @@ class C04(Check):
         for n in range(1, N + 1):
             exp = symx.explore(harness_mask, {'N': n, 'seed': self.seed, 'replay': True}, name='mystery_mask[N=%d]' % n)
             self.absorb(exp, need_paths=2)
-        for f in self.failures:
-            f['N'] = int(f['harness'].split('=')[1].rstrip(']'))
+        from checks import classify_db
+        self.run_conformance(patterns=3)
+        G = 4 if self.tier == 'quick' else 5
+        self.bounds['DB level'] = {'grid steps': G, 'validity patterns': 'all', 'time step': '1800 s'}
+        self.unit('spowtd.classify', *classify_db.UNITS)
+        self.stubs.append('sqlite3 -> vf.symsql')
+        self.assumptions.append('DB level starts from an arbitrary state satisfying Inv_load; rate > threshold read over the reals')
+        exp = symx.explore(classify_db.harness, {'G': G, 'step_s': 1800, 'props': ('C04',), 'seed': self.seed, 'replay_every': 13},
+                           name='classify_intervals[G=%d]' % G)
+        self.absorb(exp, need_paths=2)
 
     def replay(self, failure):
-        N = failure['N']
+        if failure['harness'].startswith('classify_intervals'):
+            from checks import classify_db
+            G = int(failure['harness'].split('=')[1].rstrip(']'))
+            return classify_db.replay_failure({'G': G, 'step_s': 1800}, failure)
+        N = int(failure['harness'].split('=')[1].rstrip(']'))
         m = model_fractions(failure.get('model'))
         import numpy as np
         real = loader.real_module('spowtd.classify')
